@@ -340,8 +340,8 @@ def c01(run, args):
                                            bodykinds=("ok", "unparseable"), maxrcpts=(2,),
                                            bound="Bound1" if quick else "Bound"), workers=4)
     # (2) every command sequence inside an open transaction, to a bounded depth
-    bfs = run.generate("GenSmtp", gen_cfg(["helo", "mail", "rcpt", "data", "rset"], 7 if quick else 8, "bfs", mailkinds=("ok",),
-                                          rcptkinds=("a1", "a2", "b", "rej") if quick else ("a1", "a2", "c", "rej"), bodykinds=("ok", "unparseable"), maxrcpts=(3,), start_in_tx=True), workers=8)
+    bfs = run.generate("GenSmtp", gen_cfg(["helo", "mail", "rcpt", "data", "rset"], 7, "bfs", mailkinds=("ok",),
+                                          rcptkinds=("a1", "a2", "b", "rej") if quick else ("a1", "a2", "b", "c", "rej", "bad"), bodykinds=("ok", "unparseable"), maxrcpts=(3,), start_in_tx=True), workers=8)
     bfs = [x for x in bfs if any(a["c"] == "body" for a in x)]
     ntour = len(tour)
     bfs = tour + bfs
